@@ -380,6 +380,13 @@ def mon_prio(ls, out):
         p = parts(o)
         ress = p[0].split(",")
         single = len(w) == 2
+        # operations of one aggregator batch are concurrent: any order of them is admissible.  Whatever the order, an item that was buffered
+        # before the batch began and is not handed out by any get of this batch is present at every get's linearization point
+        taken_here = [int(r) for tok, r in zip(w[1:], ress) if tok in ("g", "r") and r != "-"]
+        stay = list(buf)
+        for x in taken_here:
+            if x in stay:
+                stay.remove(x)
         for tok, r in zip(w[1:], ress):
             if tok[0] == "p":
                 buf.append(int(tok[1:]))
@@ -389,6 +396,9 @@ def mon_prio(ls, out):
                     return "priority_queue_node handed out %d which is not buffered (%s)" % (x, sorted(buf))
                 if single and x != max(buf):
                     return "priority_queue_node handed out %d while %d is buffered" % (x, max(buf))
+                if stay and x < max(stay):
+                    return ("priority_queue_node handed out %d although %d was buffered before this batch of concurrent operations began and stays "
+                            "buffered (no order of the batch `%s` makes %d a highest-priority item)" % (x, max(stay), " ".join(w[1:]), x))
                 buf.remove(x)
                 if tok == "r":
                     resv = x
